@@ -139,3 +139,17 @@ impl<'a> From<(&'a Histogram, &'a Histogram, &'a Metric)> for Sinkhorn<'a> {
         }
     }
 }
+
+/// verification hooks: read access to the plan and the potentials
+#[cfg(robopoker_verif)]
+impl Sinkhorn<'_> {
+    pub fn verif_coupling(&self, x: &Abstraction, y: &Abstraction) -> Energy {
+        self.coupling(x, y)
+    }
+    pub fn verif_lhs(&self) -> Vec<(Abstraction, Entropy)> {
+        self.lhs.support().map(|x| (*x, self.lhs.density(x))).collect()
+    }
+    pub fn verif_rhs(&self) -> Vec<(Abstraction, Entropy)> {
+        self.rhs.support().map(|x| (*x, self.rhs.density(x))).collect()
+    }
+}
